@@ -21,7 +21,7 @@ RULE = (
     "type). Non-trivial = facade: >= 4 pressures with non-zero salinity; table: >= 20 rows; "
     "Sutton: always. Distinct = descriptor hash."
 )
-MIN_NONTRIVIAL = {"quick": 100, "thorough": 1500}
+MIN_NONTRIVIAL = {"quick": 100, "thorough": 5000}
 SHARDS = {"quick": 2, "thorough": 16}
 GENERATOR = {"facade": "C12 oil box, salinity 3..25, pseudocritical -120..10 F / 550..760 psia", "tables": "gravity 0.55..1.2, 80..400 F, N2/H2S/CO2 0..0.08, wet/dry"}
 ASSUMPTIONS = ["rounding tolerance 1e-13 relative (facade) / 1e-12 (table rows)", "Sutton (2007) hydrocarbon polynomials as published"]
@@ -50,7 +50,7 @@ def setup(ck):
 
 def generate(ck):
     rng = ck.rng
-    nf, nt, ns = (90, 24, 40) if ck.tier == "quick" else (1200, 260, 500)
+    nf, nt, ns = (90, 24, 40) if ck.tier == "quick" else (5000, 1000, 2000)
     descs = []
     for _ in range(nf):
         o = wl.oil_params(rng)
@@ -153,6 +153,14 @@ def run_case(ck, desc):
         need = {"pressure", "Density", "z-factor", "compressibility", "viscosity", "pseudopressure", "temperature"}
         if not need <= set(tab.columns):
             ck.violation("table.columns", {"missing": sorted(need - set(tab.columns))}, desc)
+        # the returned table belongs to the caller: editing it must not leak into the next call
+        first = tab.copy(deep=True)
+        tab["pseudopressure"] = (tab["pseudopressure"] - 1.0) * 3.0
+        tab.iloc[0, tab.columns.get_loc("z-factor")] = -1.0
+        again = build_pvt_gas(comp, dry, maximum_pressure=desc["pmax"])
+        if again is tab or not again.equals(first):
+            ck.violation("table.fresh-on-every-call", {"same_object": bool(again is tab), "first_pseudopressure": float(again["pseudopressure"].iloc[0])}, desc)
+        ck.count("tables_rebuilt_after_caller_edit")
         ck.count("table_rows_checked", len(P))
         return len(P) >= 20, {"rows": len(P), "Tpc": Tpc, "ppc": ppc}
 
